@@ -3,9 +3,9 @@ CONSTANTS
   BSZ = 2
   RADIX = 4
   Batches = {1}
-  MaxCalls = 5
+  MaxCalls = 4
   MaxReq = 17
   Keys = {"k1", "k2"}
   Shipped = {}
-INVARIANTS TypeOK StreamLaw BackendsAgree PosRefines LanesStaggered
+INVARIANTS TypeOK StreamLaw SplitIndependent BackendsAgree PosRefines LanesStaggered
 CHECK_DEADLOCK FALSE
